@@ -121,6 +121,26 @@ func init() {
 		Explanation: "R-SUB on the case transformers (case equivalences reach a class's subtraction), R-CASERECUR (a subtraction is parsed with the same case flag), R-ASCIIFOLD (ASCII-only ignore-case search helpers only on ASCII-tested needles), R-CIREF (reduce clears IgnoreCase on everything but backreferences; refmatch folds both sides alike), R-NEGCHARS. " +
 			"The invariance of match outcomes under case changes is NOT decided.",
 	})
+	register(&Prop{
+		ID:    "C08",
+		Rules: []func(*core.Ctx){RCapNorm, RLastCap, RRuneWidth, RStrText, RUnits},
+		Explanation: "R-CAPNORM (capture lengths are computed after the end<start swap), R-LASTCAP (a group's embedded capture is its last one; group 0 has exactly one capture from matches[0]: affine evaluation of the index expressions), R-RUNEWIDTH (every byte mapper that sizes runes with RuneLen re-decodes under RuneError), R-STRTEXT (string entry points build match text from the original string), R-UNITS (byte offsets never become rune positions). " +
+			"0 <= index <= index+length <= len for every capture (which depends on the interpreter's positions), balancing compaction and value-for-value agreement of the mappers are NOT decided.",
+	})
+	register(&Prop{
+		ID:    "C09",
+		Rules: []func(*core.Ctx){RRepConst, RRepCases, RCompact, rDirFoldOnly, RSlot},
+		Explanation: "R-REPCONST (encoder and decoder of replacement rules are the same affine map over equal constants), R-REPCASES (every special token has an arm in both expansion functions; the right-to-left expansion collects pieces last-to-first), R-COMPACT (balancing compaction precedes every expansion of the reused match; count discipline of the replace loops), R-DIRFOLD (Split and the replace drivers are direction-aware), R-SLOT (group numbers reach slots through the maps, including inside Split). " +
+			"That the pieces are concatenated with the right text in between, $-grammar ambiguities and identity of $& are NOT decided.",
+	})
+	register(&Prop{
+		ID:    "C14",
+		Rules: []func(*core.Ctx){RLock, RClockEnd, RClockState, RRestart, RPoll, REndCover, rStaleOnly},
+		Explanation: "Structural skeleton of the timeout machinery only: R-LOCK (fast.start/running under fast.mu, the clock word through sync/atomic), R-CLOCKEND (the clock's end is only raised, under the lock), R-CLOCKSTATE (one place spawns the clock goroutine, under !running; only runClock clears running, after its loop), R-RESTART (a deadline beyond the clock's end always extends the clock), R-POLL (the deadline is polled in scan's and the interpreter's loops), R-STALE (timeout state of a pooled Runner is re-established per call). " +
+			"Every timing statement of the property (no earlier than d, no later than d + a few periods, the stale-clock refresh being right, the goroutine exiting) is NOT decided.",
+	})
 }
+
+func rStaleOnly(c *core.Ctx) { RStale(c) }
 
 func rDirFoldOnly(c *core.Ctx) { rDirFold(c) }
